@@ -208,7 +208,28 @@ def run_case(rec, files: dict, descs: dict | None, order: list[str], implicit: b
                     gone = [k[len("placeholder:"):] for k, (before, after) in diff.items()
                             if k.startswith("placeholder:") and before is not None and after is None]
                     holders = {g.rsplit(".", 1)[0] for g in gone}
-                    others_ok = all(k.startswith("placeholder:") or k.rsplit(".", 1)[0] in holders for k in diff)
+                    # ... or in a module that wildcard-imports (transitively) from such a module: the late names travel on
+                    edges = graphs.wildcard_edges(_flatten(descs))
+                    affected = set(holders)
+                    grew = True
+                    while grew:
+                        grew = False
+                        for mod_, tgts in edges.items():
+                            if mod_ not in affected and tgts & affected:
+                                affected.add(mod_)
+                                grew = True
+
+                    def owner(key: str) -> str:
+                        parts = key.split(".")
+                        for cut in range(len(parts) - 1, 0, -1):
+                            if ".".join(parts[:cut]) in edges:
+                                return ".".join(parts[:cut])
+                        return key.rsplit(".", 1)[0]
+
+                    # ... or is a mere resolution (unresolved before, resolved now): expanding a wildcard through an alias
+                    # of a module dereferences that module's own aliases
+                    others_ok = all(k.startswith("placeholder:") or owner(k) in affected or (v[0] is None and v[1] is not None)
+                                    for k, v in diff.items())
                     fid = "C06-wildcard-late-expansion" if (gone and others_ok) else None
                     if fid:
                         deferred.append((fid, f"resolve_aliases() call #{i + 1} changed the tree (not a fixpoint): " + str(sorted(diff))[:200]))
